@@ -551,6 +551,7 @@ impl<'a> Client<'a> {
                 }
                 with_out(self.out, |o| o.stats.writes += 1);
             }
+            Op::Align { mask, nth } => rt::align_request(*mask, *nth),
             Op::Get { k } => self.do_get(idx, *k, 1),
             Op::GetMany { k, n } => self.do_get(idx, *k, *n),
             Op::Snap { slot } => {
